@@ -783,6 +783,64 @@ theorem docStep_ne_err (env : Env) (top : NodeId) (dr : Draft) (b : Url) (recDoc
         rw [List.mem_singleton.mp hw]
         exact reach_root env.st root)) hwf.refs
 
+
+/-! ### every fuel, Schema.Resolve -/
+
+theorem resolveDoc_ne_err_G (env : Env) (top : NodeId) (dr : Draft) (b : Url) (hfresh : LoaderFresh env top)
+    (U : UniverseOk env top dr b) : ∀ fuel, RecNE env top dr b (resolveDoc env fuel) := by
+  intro fuel
+  induction fuel with
+  | zero => intro lroot base s rets _ _ _ _ _; rw [resolveDoc]; simp
+  | succ fuel ih =>
+    intro lroot base s rets hinv hnone hdisj hk hfr
+    obtain ⟨tbl, htbl, hl⟩ := hk
+    rw [resolveDoc]
+    have hne : lroot ≠ top := by
+      intro e
+      have := hinv.topReg
+      unfold Registered at this
+      rw [← e, hnone] at this
+      simp at this
+    exact docStep_ne_err env top dr b _ (resolveDoc_spec env fuel) (resolveDoc_G env top hfresh fuel)
+      (resolveDoc_all env dr (loaderDeclares_of env top dr b U) fuel) ih hfresh U lroot base dr s rets hinv.g
+      hinv.drafts hnone hdisj (Or.inr ⟨tbl, htbl, hl⟩) (U.docs tbl base lroot htbl hl hfr)
+      (loaderDeclares_of env top dr b U tbl _ lroot htbl hl)
+      (Or.inr ⟨hne, hinv.topReg, hinv.topRet, hinv.topNames⟩)
+
+/-- Schema.Resolve returns no error in a universe of well-formed, coherent documents that are all present -/
+theorem resolve_ne_err_G (env : Env) (top : NodeId) (dr : Draft) (b : Url) (base : String) (fuel : Nat)
+    (hb : retrievalOf base = .ok b) (hfresh : LoaderFresh env top) (U : UniverseOk env top dr b) :
+    resolve env fuel top base ≠ .err := by
+  unfold resolve
+  simp only []
+  have hb' : (if base == "" then Res.ok ({} : Url) else Uri.parse base) = .ok b := hb
+  rw [hb']
+  simp only [Res.bind_ok]
+  refine bind_ne_err ?_ fun s _ => by split <;> simp
+  cases fuel with
+  | zero => rw [resolveDoc]; simp
+  | succ fuel =>
+    rw [resolveDoc]
+    exact docStep_ne_err env top dr b _ (resolveDoc_spec env fuel) (resolveDoc_G env top hfresh fuel)
+      (resolveDoc_all env dr (loaderDeclares_of env top dr b U) fuel) (resolveDoc_ne_err_G env top dr b hfresh U fuel)
+      hfresh U top b .d2020 {} (fun _ => b) (gInv_init env top _) (allDraft_init dr) (by simp [RState.doc?])
+      (by intro r hr; simp [Registered, RState.doc?] at hr) (Or.inl rfl) U.topDoc
+      (by intro rn hrn; rw [← topDraft_eq env top rn hrn]; exact U.topDr) (Or.inl ⟨rfl, rfl⟩)
+
+/-- completeness with a Loader: success, for every fuel above the number of Loader entries -/
+theorem resolve_ok_of_universe (env : Env) (top : NodeId) (dr : Draft) (b : Url) (base : String) (fuel : Nat)
+    (hfuel : (env.loader.getD []).length + 1 ≤ fuel)
+    (hb : retrievalOf base = .ok b) (hfresh : LoaderFresh env top) (hdis : RTot.docsDisjoint env top = true)
+    (U : UniverseOk env top dr b) : ∃ rs, resolve env fuel top base = .ok rs := by
+  have h1 := resolve_ne_err_G env top dr b base fuel hb hfresh U
+  have h2 := RTot.resolve_ne_panic env fuel top base hdis
+  have h3 := RTot.resolve_ne_fuel env fuel top base hfuel
+  cases hr : resolve env fuel top base with
+  | ok rs => exact ⟨rs, rfl⟩
+  | err => exact absurd hr h1
+  | panic => exact absurd hr h2
+  | fuel => exact absurd hr h3
+
 end RComp
 end Go
 end JSV
